@@ -432,7 +432,8 @@ def finish(check, aud, trusted_base, level_text=""):
         check.violation("proof obligation does not check: " + p.splitlines()[0], case=None,
                         failing_input=False, broken=p)
     seen = set()
-    for v in check.violations:
+    # violations with a concrete failing input are reported first (at most five lines are printed)
+    for v in sorted(check.violations, key=lambda v: not v["failing_input_found"]):
         path = write_replay(check, v)
         if path in seen:
             continue
